@@ -48,14 +48,16 @@ PickW(ws) == LET s == Expand(ws) IN s[Pick(1..Len(s))]
 (*  interpreter rejects a label declared inside a case clause - known finding)    *)
 Ctx0 == [rd |-> {"g0", "g1"}, wr |-> {"g0", "g1"}, loc |-> {}, defd |-> {}, labs |-> <<>>, incase |-> FALSE, pure |-> FALSE,
          fcall |-> TRUE, clos |-> {}, fs |-> FALSE, ret |-> "none", rvar |-> FALSE, dfr |-> FALSE, top |-> FALSE,
-         litidx |-> FALSE, ptrs |-> {}, d |-> 2]
+         litidx |-> FALSE, ptrs |-> {}, sls |-> {}, d |-> 2]
 
 RECURSIVE GenE(_, _), GenC(_, _), GenS(_), GenB(_, _), GenLitBody(_), GenDeferBody(_)
 
 GenLeaf(c) ==
-    LET k == PickW(<< <<3, "lit">>, <<4, "var">>, <<1, "fld">>, <<1, "idx">>, <<IF c.ptrs # {} THEN 2 ELSE 0, "deref">> >>) IN
+    LET k == PickW(<< <<3, "lit">>, <<4, "var">>, <<1, "fld">>, <<1, "idx">>, <<IF c.ptrs # {} THEN 2 ELSE 0, "deref">>,
+                      <<IF c.sls # {} THEN 2 ELSE 0, "sl">> >>) IN
     CASE k = "lit" -> Lit(Pick(0..5))
       [] k = "deref" -> [k |-> "deref", p |-> Pick(c.ptrs)]
+      [] k = "sl"    -> [k |-> "sl", s |-> Pick(c.sls), ix |-> Pick(0..2)]
       [] k = "var" -> Var(Pick(c.rd))
       [] k = "fld" -> [k |-> "fld", f |-> Pick({"a", "b"})]
       [] k = "idx" -> [k |-> "idx", i |-> IF c.litidx \/ Pick(1..2) = 1 THEN Lit(Pick(0..1)) ELSE Var(Pick(c.rd))]
@@ -97,6 +99,7 @@ InSwitchOfLoop(c) == FALSE
 FreeNames(c) == ({"x", "y", "z"} \ c.defd) \ (IF Profile = "session" /\ ~Pinned THEN c.rd ELSE {})
 FreeClos(c)  == {"c1", "c2"} \ (c.defd \cup c.clos)
 FreePtrs(c)  == {"p1", "p2"} \ (c.defd \cup c.ptrs)
+FreeSls(c)   == {"s1", "s2"} \ (c.defd \cup c.sls)
 Inner(c)     == [c EXCEPT !.defd = {}, !.d = c.d - 1]
 
 \* body of a function literal of type func() int: its locals are its own
@@ -137,6 +140,9 @@ Kinds(c) ==
           <<IF deep /\ FreeNames(c) # {} THEN 1 ELSE 0, "ifinit">>, <<eff, "iswap">>,
           <<IF FreePtrs(c) # {} /\ ~c.pure THEN 1 ELSE 0, "mkptr">>,
           <<IF c.ptrs # {} THEN 2 ELSE 0, "pset">>, <<IF c.ptrs # {} THEN 2 ELSE 0, "pop">>,
+          <<IF FreeSls(c) # {} /\ ~c.pure THEN 2 ELSE 0, "mksl">>,
+          <<IF FreeSls(c) # {} /\ c.sls # {} /\ ~c.pure THEN 1 ELSE 0, "slshare">>,
+          <<IF c.sls # {} THEN 3 ELSE 0, "slset">>, <<IF c.sls # {} /\ ~c.pure THEN 3 ELSE 0, "printsl">>,
           <<IF loop THEN 2 ELSE 0, "brk">>, <<IF loop THEN 2 ELSE 0, "cont">>,
           <<IF c.ret # "none" /\ Profile = "core" THEN 1 ELSE 0, "ret">>,
           <<IF deep /\ FreeClos(c) # {} THEN 2 * eff ELSE 0, "mkclo">>,
@@ -202,14 +208,28 @@ GenS(c) ==
       [] k = "mkptr" -> LET pn == Pick(FreePtrs(c)) IN
                         [s |-> [k |-> "mkptr", p |-> pn, x |-> Pick(c.wr)],
                          c |-> [c EXCEPT !.ptrs = @ \cup {pn}, !.defd = @ \cup {pn}]]
+      [] k = "mksl"  -> LET n  == Pick(FreeSls(c))
+                            c2 == IF Pinned THEN c ELSE [c EXCEPT !.ptrs = {}]     \* Excluded_F_C01_8
+                            es == IF Pick(1..2) = 1 THEN <<Lit(Pick(0..5)), Lit(Pick(0..5)), Lit(Pick(0..5))>>
+                                  ELSE <<GenE(1, c2), GenLeaf(c2), Lit(Pick(0..5))>>
+                        IN [s |-> [k |-> "mksl", s |-> n, es |-> es],
+                            c |-> [c EXCEPT !.sls = @ \cup {n}, !.defd = @ \cup {n}]]
+      [] k = "slshare" -> LET n == Pick(FreeSls(c)) IN
+                        [s |-> [k |-> "slshare", s |-> n, from |-> Pick(c.sls)],
+                         c |-> [c EXCEPT !.sls = @ \cup {n}, !.defd = @ \cup {n}]]
+      [] k = "slset" -> S([k |-> "slset", s |-> Pick(c.sls), ix |-> Pick(0..2), op |-> Pick({"set", "add"}), e |-> GenE(1, c)])
+      [] k = "printsl" -> S([k |-> "printsl", s |-> Pick(c.sls)])
       [] k = "pset"  -> S([k |-> "pset", p |-> Pick(c.ptrs), e |-> GenE(1, c)])
       [] k = "pop"   -> S([k |-> "pop", p |-> Pick(c.ptrs), op |-> Pick({"add", "sub"}), e |-> GenE(1, c)])
       [] k = "switch" -> LET n  == Pick(1..2)
                              vs == IF n = 1 THEN <<Pick(0..3)>> ELSE LET a == Pick(0..3) IN <<a, (a + Pick(1..3)) % 4>>
                              c1 == [Inner(c) EXCEPT !.incase = TRUE]
+                             \* Excluded_F_C01_9: a clause entered by fallthrough holds no return statement
+                             c2 == IF Pinned THEN c1 ELSE [c1 EXCEPT !.ret = "none"]
+                             f1 == n = 2 /\ Pick(1..3) = 1
                          IN S([k |-> "switch", tag |-> GenE(1, c),
-                               cases |-> [i \in 1..n |-> [v |-> vs[i], body |-> GenB(Pick(1..2), c1),
-                                                          fall |-> i < n /\ Pick(1..3) = 1]],
+                               cases |-> [i \in 1..n |-> [v |-> vs[i], body |-> GenB(Pick(1..2), IF i = 2 /\ f1 THEN c2 ELSE c1),
+                                                          fall |-> i = 1 /\ f1]],
                                dflt |-> GenB(Pick(0..1), c1)])
       [] k = "brk"   -> S([k |-> "brk",  lab |-> IF Pick(1..2) = 1 THEN "" ELSE Pick({c.labs[i] : i \in 1..Len(c.labs)})])
       [] k = "cont"  -> S([k |-> "cont", lab |-> IF Pick(1..2) = 1 \/ InSwitchOfLoop(c) THEN "" ELSE Pick({c.labs[i] : i \in 1..Len(c.labs)})])
@@ -360,6 +380,12 @@ Witnesses ==
             << [k |-> "mkptr", p |-> "p1", x |-> "g0"],
                [k |-> "tlit", a |-> Lit(1), b |-> Bin("add", Lit(3), [k |-> "deref", p |-> "p1"])],
                [k |-> "printg"] >>),
+      WProg("fallthrough-into-a-return-clause",
+            << [k |-> "switch", tag |-> Var("g1"),
+                cases |-> << [v |-> 5, fall |-> TRUE, body |-> << AsgS("r", Lit(1)) >>],
+                             [v |-> 2, fall |-> FALSE, body |-> << [k |-> "ret", bare |-> TRUE, e |-> Lit(0)] >>] >>,
+                dflt |-> <<>>] >>,
+            << PrintS(CallE("f", Lit(1))), [k |-> "printg"] >>),
       WProg("loop-variable-in-deferred-literal",
             << For2(<<DLit(<<PrintS(Var("i"))>>)>>) >>,
             << PrintS(CallE("f", Lit(1))) >>) }
